@@ -159,6 +159,22 @@ def run_segment(seg):
             so["setup_error"] = traceback.format_exc()[-1500:]
             out["steps"].append(so)
             continue
+        if step.get("side") and mode == "impl":
+            # another process works on the same store in the meantime (a brand-new interpreter)
+            import json
+            import subprocess
+            import tempfile
+
+            with tempfile.TemporaryDirectory(prefix="vp_side_") as sd:
+                with open(os.path.join(sd, "seg.json"), "w") as f:
+                    json.dump(step["side"], f)
+                r = subprocess.run([sys.executable, "-m", "vp.segcli", os.path.join(sd, "seg.json"), os.path.join(sd, "out.pkl")], capture_output=True, text=True, timeout=600,
+                                   cwd=os.path.dirname(os.path.dirname(os.path.abspath(__file__))))
+                if r.returncode == 0 and os.path.exists(os.path.join(sd, "out.pkl")):
+                    with open(os.path.join(sd, "out.pkl"), "rb") as f:
+                        so["side"] = pickle.load(f)
+                else:
+                    so["side_error"] = r.stderr[-600:]
         vlog.clear()
         if cap is not None:
             cap.clear()
